@@ -375,6 +375,38 @@ def c02_semicolon_join_lowercases_names():
     return "B = 2" in t and "Cc = a + B" in t, dict(printed=t)
 
 
+def c08_generic_spec_with_surplus_parenthesis():
+    """D40/D41: unbalanced parentheses inside OPERATOR(...) / ASSIGNMENT(...) generic specs are accepted"""
+    a = _rejected("module m\ninterface operator(+))\nmodule procedure f\nend interface\nend module m\n")
+    b = _rejected("module m\nuse m2, only: operator(.eq., assignment(=)\nend module m\n")
+    return a[0] and b[0], dict(interface=a[1], use=b[1])
+
+
+def c08_procedure_declaration_drops_text():
+    """D42 (fixed)"""
+    return _rejected("module m\nprocedure(real)), pointer :: pp => null()\nend module m\n")
+
+
+def c06_named_end_of_unnamed_unit():
+    """D43 (fixed)"""
+    return _only_syntax_error("block data\nend block data foo\n")
+
+
+def c06_edit_descriptor_without_width():
+    """D44 (fixed)"""
+    return _only_syntax_error("program p\n100 format(1x, e)\nend program p\n")
+
+
+def c06_cray_pointer_without_pointee():
+    """D45 (fixed)"""
+    return _only_syntax_error("program p\npointer (a,)\nend program p\n")
+
+
+def c06_identifier_collides_with_placeholder():
+    """D46: KeyError from the inverse placeholder map"""
+    return _only_syntax_error("program p\nx = (F2PY_EXPR_TUPLE_7 + 1)\nend program p\n")
+
+
 def c14_directive_backslash_at_eof():
     """D9: a directive whose last line ends in a backslash at end of input is lost"""
     r = _reader("x = 1\n#define X \\\n")
